@@ -146,6 +146,7 @@ theorem LExt.trans {a b c : LState} (h1 : LExt a b) (h2 : LExt b c) : LExt a c :
 theorem lStep_ext (b : Option Nat) (s : LState) (e : LStep) : LExt s (lStep b s e) := by
   cases e with
   | schedule ra key tx => exact ⟨Nat.le_refl _, lAppend_ext _ _, fun _ h => h, fun _ h => h⟩
+  | scheduleBad ra key tx => exact ⟨Nat.le_refl _, lAppend_ext _ _, fun _ h => h, fun _ h => h⟩
   | commit tx => exact ⟨Nat.le_refl _, lEndTx_ext _ _ _, fun _ h => h, fun _ h => h⟩
   | rollback tx => exact ⟨Nat.le_refl _, lEndTx_ext _ _ _, fun _ h => h, fun _ h => h⟩
   | tick n => exact ⟨Nat.le_add_right _ _, LRowsExt.refl _, fun _ h => h, fun _ h => h⟩
@@ -510,6 +511,19 @@ theorem lSafe_step (b : Option Nat) (s : LState) (e : LStep) (hs : LSafe s) : LS
       rcases getElem?_append_singleton h with h1 | ⟨_, rfl⟩
       · exact hs.proc j r' h1 hp
       · simp at hp
+  | scheduleBad ra key tx =>
+    apply lSafe_build hs hext
+    · intro x hx; exact Or.inl hx
+    · intro e he; exact Or.inl he
+    · intro e he; exact Or.inl he
+    · intro j r' h hv
+      rcases getElem?_append_singleton h with h1 | ⟨_, rfl⟩
+      · exact Or.inl ⟨r', h1, hv⟩
+      · simp at hv
+    · intro j r' h hp
+      rcases getElem?_append_singleton h with h1 | ⟨_, rfl⟩
+      · exact hs.proc j r' h1 hp
+      · simp at hp
   | commit tx =>
     apply lSafe_build hs hext
     · intro x hx; exact Or.inl hx
@@ -788,6 +802,11 @@ theorem lCnt_step (b : Option Nat) (s : LState) (e : LStep) (hc : LCnt s) : LCnt
     have := hc.cap j
     simp only [lStep, lCapCount] at this ⊢
     rw [procN_append _ _ rfl]; exact this
+  | scheduleBad ra key tx =>
+    refine ⟨fun j => ?_, fun j => hc.inv j⟩
+    have := hc.cap j
+    simp only [lStep, lCapCount] at this ⊢
+    rw [procN_append _ _ rfl]; exact this
   | commit tx =>
     refine ⟨fun j => ?_, fun j => hc.inv j⟩
     have := hc.cap j
@@ -831,16 +850,19 @@ theorem lCnt_step (b : Option Nat) (s : LState) (e : LStep) (hc : LCnt s) : LCnt
             rows := (lCaptureAll cands s.rows).1
             caps := ((lCaptureAll cands s.rows).2.map fun j => (j, s.clock, i)).reverse ++ s.caps
             insts := s.insts.set i (true,
-              if (lCaptureAll cands s.rows).2 = [] then .idle
+              if (lCaptureAll cands s.rows).2 = [] || lAnyBad s.rows (lCaptureAll cands s.rows).2 then .idle
               else .busy (lCaptureAll cands s.rows).2 (lCaptureAll cands s.rows).2) } rfl
-        have h4 : lPendPhase j (if (lCaptureAll cands s.rows).2 = [] then LPhase.idle
-              else .busy (lCaptureAll cands s.rows).2 (lCaptureAll cands s.rows).2) =
+        have h4 : lPendPhase j (if (lCaptureAll cands s.rows).2 = [] || lAnyBad s.rows (lCaptureAll cands s.rows).2
+              then LPhase.idle
+              else .busy (lCaptureAll cands s.rows).2 (lCaptureAll cands s.rows).2) ≤
             (lCaptureAll cands s.rows).2.count j := by
           split
-          · rename_i he; simp [lPendPhase, he]
+          · simp [lPendPhase]
           · simp [lPendPhase]
         dsimp only at h3
-        rw [h4] at h3
+        generalize lPendPhase j (if (lCaptureAll cands s.rows).2 = [] || lAnyBad s.rows (lCaptureAll cands s.rows).2
+              then LPhase.idle
+              else .busy (lCaptureAll cands s.rows).2 (lCaptureAll cands s.rows).2) = pp at h3 h4
         simp only [lPendPhase] at h3
         simp only [lCapCount, lInvCount] at h0 h1 h3 ⊢
         omega
@@ -905,6 +927,7 @@ theorem lStuck_step (b : Option Nat) (s : LState) (e : LStep) (j : Nat) (h : LSt
   refine ⟨⟨hproc, ?_⟩, ?_⟩
   · cases e with
     | schedule ra key tx => exact h.2
+    | scheduleBad ra key tx => exact h.2
     | commit tx => exact h.2
     | rollback tx => exact h.2
     | tick n => exact h.2
@@ -972,6 +995,7 @@ theorem lStuck_step (b : Option Nat) (s : LState) (e : LStep) (j : Nat) (h : LSt
         simp [lInvCount, hne]
       · rfl
     | schedule ra key tx => rfl
+    | scheduleBad ra key tx => rfl
     | commit tx => rfl
     | rollback tx => rfl
     | tick n => rfl
@@ -1037,6 +1061,41 @@ theorem lCrash_strands (b : Option Nat) {s : LState} (hc : LCnt s) {x j : Nat} {
   · have h7 : lPend { s with insts := s.insts.set x (false, .idle) } j = 0 := by omega
     exact sum_zero_mem (f := fun (y : Bool × LPhase) => lPendPhase j y.2) _ h7
   · simp only [lInvCount] at h3 ⊢
+    omega
+
+/-- a capture whose batch contains an un-preparable call strands every call of the batch: flags
+    set, iteration over (nobody holds them), none of them had been invoked -/
+theorem lBadBatch_strands (b : Option Nat) {s : LState} (hc : LCnt s) {i j : Nat} {cands : List Nat}
+    (hi : s.insts[i]? = some (true, .selected cands)) (hj : j ∈ (lCaptureAll cands s.rows).2)
+    (hbad : lAnyBad s.rows (lCaptureAll cands s.rows).2 = true) :
+    LStuck (lStep b s (.capture i)) j ∧ lInvCount (lStep b s (.capture i)) j = 0 := by
+  obtain ⟨_, r, hr, _, hp⟩ := lCaptureAll_mem _ _ _ hj
+  have h0 : procN s.rows j = 0 := by rw [procN_of hr]; simp [hp]
+  have h1 := hc.cap j
+  have h2 := hc.inv j
+  have h3 := lCaptureAll_count cands s.rows j
+  have h4 : 1 ≤ (lCaptureAll cands s.rows).2.count j := List.count_pos_iff.mpr hj
+  have hs' : lStep b s (.capture i) =
+      { s with
+        rows := (lCaptureAll cands s.rows).1
+        caps := ((lCaptureAll cands s.rows).2.map fun j => (j, s.clock, i)).reverse ++ s.caps
+        insts := s.insts.set i (true, .idle) } := by
+    simp [lStep, hi, hbad]
+  rw [hs']
+  have h5 := lPend_set hi j
+    { s with
+      rows := (lCaptureAll cands s.rows).1
+      caps := ((lCaptureAll cands s.rows).2.map fun j => (j, s.clock, i)).reverse ++ s.caps
+      insts := s.insts.set i (true, .idle) } rfl
+  simp only [lPendPhase] at h5
+  have h6 : 1 ≤ procN (lCaptureAll cands s.rows).1 j := by omega
+  refine ⟨⟨procN_pos (rows := (lCaptureAll cands s.rows).1) h6, ?_⟩, ?_⟩
+  · have h7 : lPend { s with
+        rows := (lCaptureAll cands s.rows).1
+        caps := ((lCaptureAll cands s.rows).2.map fun j => (j, s.clock, i)).reverse ++ s.caps
+        insts := s.insts.set i (true, .idle) } j = 0 := by omega
+    exact sum_zero_mem (f := fun (y : Bool × LPhase) => lPendPhase j y.2) _ h7
+  · simp only [lInvCount] at h2 ⊢
     omega
 
 end Mistral.Sched
